@@ -509,4 +509,27 @@ theorem applyBuild_idx_old (ti : Info) (b : Build) (n i : Nat) (ov : Overlay)
   simp only [Info.applyBuild]
   rw [List.getElem?_append_left hlt]; exact h
 
+/-! ## which tables persist saves -/
+
+theorem FMap.get_none_of_isEmpty {β} (m : FMap β) (h : m.isEmpty = true) (k : Key) : m.get k = none := by
+  by_cases hc : m.keys.contains k = true
+  · have hk : k ∈ m.keys := by simpa using hc
+    have := (List.all_eq_true.mp h) k hk
+    simpa using this
+  · have hk : k ∉ m.keys := by simpa using hc
+    simp only [FMap.get, List.contains_eq_mem, hk, decide_false]
+    rfl
+
+/-- when the test looks at every index, a table that persist skips has nothing unsaved in the
+base layer of ANY index -/
+theorem clean_of_not_modified (ti : Info) (h : ti.modifiedWith true = false) :
+    ∀ ov ∈ ti.idx, ∀ k, (ov.layers.headD FMap.empty).get k = none := by
+  intro ov hov k
+  simp only [Info.modifiedWith, if_true] at h
+  have h1 : ov.modified = false := by
+    have := List.any_eq_false.mp h ov hov
+    simpa using this
+  simp only [Overlay.modified, Bool.not_eq_false'] at h1
+  exact FMap.get_none_of_isEmpty _ h1 k
+
 end Gsu.Db
